@@ -68,6 +68,14 @@ pub mod sync {
                 self.shadow.touch();
                 self.inner.as_mut().expect("receiver alive").try_recv()
             }
+            pub fn is_empty(&self) -> bool {
+                self.shadow.touch();
+                self.inner.as_ref().expect("receiver alive").is_empty()
+            }
+            pub fn is_terminated(&self) -> bool {
+                self.shadow.touch();
+                self.inner.as_ref().expect("receiver alive").is_terminated()
+            }
             pub fn close(&mut self) {
                 self.shadow.touch();
                 self.inner.as_mut().expect("receiver alive").close()
